@@ -500,6 +500,7 @@ def units(ctx):
 
 
 SPEC = Spec(
+    lean=['Folds.lean'],
     prop=PROP, level="other",
     functions=[(TCS, "CallStackGraph._compute_depth"), (TCS, "CallStackGraph._compute_height"), (TCS, "CallStackGraph._add_kernel_info_to_cpu_ops"), (TCS, "CallStackGraph._link_cpu_and_gpu"),
                (TCG, "CallGraph._normalize_stack_columns"), (TCG, "CallGraph._build_call_stacks"), (TCG, "CallGraph._link_main_and_bwd_stacks"),
